@@ -281,8 +281,9 @@ func c04Program(r *verifrt.Rand, kind int) c04prog {
 		p.Names = []string{"a/first", "b/second"}
 		p.NoWeekends = r.Intn(2) == 0
 		p.NoLink = !p.NoWeekends && r.Intn(2) == 0 // (the week-end setting has no safe in-place fallback)
-		if (kind/8)%4 == 1 {
-			// (the in-place pattern of the driver)
+		if (kind/8)%4 <= 1 {
+			// (the in-place patterns of the driver: creator killed at its k-th
+			// point, and one opener parked at its k-th point, both for all k)
 			p.NoLink, p.NoWeekends = true, false
 		}
 	default:
